@@ -470,6 +470,11 @@ def l4(run, mod, fns, project):
             got = "skip"
         elif len(lps) == 1 and not direct:
             got = paths.text(lps[0][0])
+            # the values of a table {cc_name(c): c for c in S} are the members of S, once each: cc_name is injective on the
+            # command codes (L8 folds it to the member names)
+            m_ = match(lps[0][0], "{cc_name(M_c): M_c for M_c in M_s}.values()")
+            if m_ is not None:
+                got = paths.text(m_["M_s"])
         elif not lps:
             got = "(None,)"
         else:
@@ -633,8 +638,15 @@ def l7(run, mod, fns, project):
         got.update({k.arg: k.value for k in c.keywords if k.arg})
         fe = V.resolve(got.get(ppar[0]), c) if got.get(ppar[0]) is not None else None
         bu = V.resolve(got.get(ppar[1]), c) if len(ppar) > 1 and got.get(ppar[1]) is not None else None
-        ok = isinstance(fe, ast.Subscript) and norm(fe.slice) == "args.format_in" and isinstance(bu, ast.Call) \
-            and norm(bu) in ("bytes(bytes_from_files(args.file))", "b''.join(bytes_from_files(args.file))")
+        # the bytes: a whole-content read of args.file through the package's file reader (a function of tpmstream.io), as one
+        # bytes object - however that reader is split up (bytes(bytes_from_files(f)), b"".join(<blocks>(f)), read_files(f))
+        io_mod = project.module("tpmstream.io") if project.has_module("tpmstream.io") else None
+        io_fns = {n_ for n_ in (io_mod.functions() if io_mod is not None else {}) if "." not in n_}
+        called = {call_name(c_) or norm(c_.func) for c_ in ast.walk(bu) if isinstance(c_, ast.Call)} if bu is not None else set()
+        free = {x.id for x in ast.walk(bu) if isinstance(x, ast.Name) and isinstance(x.ctx, ast.Load)} - called if bu is not None else set()
+        whole = isinstance(bu, ast.Call) and (call_name(bu) == "bytes" or norm(bu.func) == "b''.join" or call_name(bu) in io_fns)
+        ok = isinstance(fe, ast.Subscript) and norm(fe.slice) == "args.format_in" and whole and bool(called & io_fns) \
+            and free == {"args"} and "args.file" in norm(bu) and called <= io_fns | {"bytes", "b''.join"}
         run.ob("L7", ok, "type: the search gets the chosen front-end and the bytes of the file",
                f"parse_all_types is called with {ppar[0]}=`{norm(fe)[:50] if fe is not None else None}`, "
                f"{ppar[1] if len(ppar) > 1 else '?'}=`{norm(bu)[:50] if bu is not None else None}`", module=mod, node=c, func="find_type",
